@@ -165,6 +165,9 @@ func drawTarget(t *rapid.T, tree *gens.ONode, feat map[string]any) jp.Expr {
 func drawMatchCase(t *rapid.T) *matchCase {
 	c := &matchCase{Feat: map[string]any{}}
 	c.Tree = gens.OTree(t, 3)
+	if sim.Intn(t, 10, "sized") == 9 {
+		c.Tree = gens.OSized(t, gens.OTree(t, 2))
+	}
 	if c.Tree.Kind == 's' && sim.Intn(t, 4, "scalar-root") != 3 {
 		// mostly containers at the root
 		c.Tree = &gens.ONode{Kind: 'a', Kids: []*gens.ONode{c.Tree, gens.OTree(t, 2)}}
